@@ -275,27 +275,47 @@ class Package:
     def bindings_in_module(self, rel, name):
         return [st for st in self.module_level(self.tree(rel)) if name in self.bound_names(st)]
 
-    def hazards(self, name, defining_rel, defining_stmt):
+    def index(self):
+        """One walk over the package: where names are declared global, stored through attributes or subscripts,
+        or mentioned as strings."""
+        if getattr(self, '_index', None) is None:
+            idx = {'global': {}, 'attr': {}, 'sub': {}, 'str': {}}
+            for rel in sorted(self.sources):
+                for n in ast.walk(self.tree(rel)):
+                    if isinstance(n, (ast.Global, ast.Nonlocal)):
+                        for nm in n.names:
+                            idx['global'].setdefault(nm, []).append((rel, n.lineno, n))
+                    elif isinstance(n, ast.Attribute) and isinstance(n.ctx, (ast.Store, ast.Del)):
+                        idx['attr'].setdefault(n.attr, []).append((rel, n.lineno, n))
+                    elif isinstance(n, ast.Subscript) and isinstance(n.ctx, (ast.Store, ast.Del)):
+                        v = n.value
+                        nm = v.id if isinstance(v, ast.Name) else (v.attr if isinstance(v, ast.Attribute) else None)
+                        if nm is not None:
+                            idx['sub'].setdefault(nm, []).append((rel, n.lineno, n))
+                    elif isinstance(n, ast.Constant) and isinstance(n.value, str) and n.value.isidentifier():
+                        idx['str'].setdefault(n.value, []).append((rel, n.lineno, n))
+            self._index = idx
+        return self._index
+
+    def hazards(self, name, defining_rel, defining_stmt, allow=()):
         """Every place of the package that could change what the module-level `name` of `defining_rel` holds
         (conservative): other bindings in its module, `global name`, stores/deletes through an attribute
         `.name`, subscript stores/deletes `name[...] = `, `.name[...] = `, the name as a string (setattr,
-        globals()[...], __dict__)."""
+        globals()[...], __dict__).  `allow`: string constants that are known to be harmless (a namedtuple's typename)."""
         out = []
         for st in self.bindings_in_module(defining_rel, name):
             if st is not defining_stmt:
                 out.append('%s:%s re-binds %s' % (defining_rel, st.lineno, name))
-        for rel in sorted(self.sources):
-            for n in ast.walk(self.tree(rel)):
-                if isinstance(n, (ast.Global, ast.Nonlocal)) and name in n.names:
-                    out.append('%s:%s global %s' % (rel, n.lineno, name))
-                elif isinstance(n, ast.Attribute) and n.attr == name and isinstance(n.ctx, (ast.Store, ast.Del)):
-                    out.append('%s:%s store to .%s' % (rel, n.lineno, name))
-                elif isinstance(n, ast.Subscript) and isinstance(n.ctx, (ast.Store, ast.Del)):
-                    v = n.value
-                    if (isinstance(v, ast.Name) and v.id == name) or (isinstance(v, ast.Attribute) and v.attr == name):
-                        out.append('%s:%s subscript store to %s' % (rel, n.lineno, name))
-                elif isinstance(n, ast.Constant) and n.value == name and isinstance(n.value, str):
-                    out.append('%s:%s the name %s as a string' % (rel, n.lineno, name))
+        idx = self.index()
+        for rel, line, _ in idx['global'].get(name, []):
+            out.append('%s:%s global %s' % (rel, line, name))
+        for rel, line, _ in idx['attr'].get(name, []):
+            out.append('%s:%s store to .%s' % (rel, line, name))
+        for rel, line, _ in idx['sub'].get(name, []):
+            out.append('%s:%s subscript store to %s' % (rel, line, name))
+        for rel, line, n in idx['str'].get(name, []):
+            if not any(n is a for a in allow):
+                out.append('%s:%s the name %s as a string' % (rel, line, name))
         return out
 
 
@@ -319,6 +339,14 @@ PURE_METHODS = {'rad', 'year', 'jde', 'minmax', 'geometric_heliocentric_position
                 'orbital_elements_mean_equinox'}
 #: methods that change their receiver in place and return it (Angle.to_positive)
 SELF_MUTATORS = {'to_positive'}
+class NTuple(ast.Tuple):
+    """An instance of a module-level `collections.namedtuple` type: an immutable record of symbolic values.
+    Behaves as a tuple (unpacking, indexing); `fields` gives the attribute names."""
+    _fields = ('elts', 'ctx')
+
+
+MATH_NAMES = {'sin', 'cos', 'tan', 'sqrt', 'radians', 'degrees', 'atan', 'atan2', 'asin', 'acos'}
+BUILTIN_NAMES = {'round', 'isinstance', 'int', 'float', 'abs'}
 NUMERIC_CALLS = {'sin', 'cos', 'tan', 'sqrt', 'radians', 'degrees', 'round', 'abs', 'float', 'int', 'atan', 'atan2',
                  'asin', 'acos'}
 UNPACK = '__unpack__'
@@ -363,6 +391,8 @@ class Sym:
         self.depth = 0
         self._const = {}
         self._helpers = {}
+        self._meaning = {}
+        self._nt = {}
 
     def fail(self, node, msg):
         fail(self.ctx, node, msg)
@@ -393,6 +423,92 @@ class Sym:
                 val = v
         self._const[name] = val
         return val
+
+    # -- what a global name means -----------------------------------------------------------
+    def single_binding(self, name):
+        """The one module-level statement that binds `name` in this module (None if there is none or several)."""
+        b = self.pkg.bindings_in_module(self.rel, name)
+        return b[0] if len(b) == 1 and b[0] in self.tree.body else None
+
+    def imported_from(self, name, module):
+        """Is the global `name` exactly `from <module> import <name>`, bound once and never replaced?"""
+        key = ('from', module, name)
+        if key not in self._meaning:
+            st = self.single_binding(name)
+            ok = (isinstance(st, ast.ImportFrom) and st.module == module and st.level == 0
+                  and any(a.name == name and a.asname is None for a in st.names)
+                  and not self.pkg.hazards(name, self.rel, st))
+            self._meaning[key] = ok
+        return self._meaning[key]
+
+    def imported_module(self, name):
+        """Is the global `name` exactly `import <name>`, bound once and never replaced?"""
+        key = ('import', name)
+        if key not in self._meaning:
+            st = self.single_binding(name)
+            ok = (isinstance(st, ast.Import) and any(a.name == name and a.asname is None for a in st.names)
+                  and not self.pkg.hazards(name, self.rel, st))
+            self._meaning[key] = ok
+        return self._meaning[key]
+
+    def is_builtin(self, name):
+        """Is the global `name` the builtin (no binding in this module, nothing in the package replaces it)?"""
+        key = ('builtin', name)
+        if key not in self._meaning:
+            self._meaning[key] = (not self.pkg.bindings_in_module(self.rel, name)
+                                  and not self.pkg.hazards(name, self.rel, None))
+        return self._meaning[key]
+
+    def math_name(self, name, loc):
+        """The canonical node for math's function `name` (what `from math import name` binds)."""
+        n = ast.copy_location(ast.Name(id=name, ctx=ast.Load()), loc)
+        n._verified = True
+        return n
+
+    def check_global_function(self, node):
+        """A bare global name the matchers give a meaning to must have that meaning."""
+        if getattr(node, '_verified', False):
+            return
+        if node.id in MATH_NAMES:
+            if not self.imported_from(node.id, 'math'):
+                self.fail(node, '`%s` is not (only) `from math import %s` in this module' % (node.id, node.id))
+        elif node.id in BUILTIN_NAMES:
+            if not self.is_builtin(node.id):
+                self.fail(node, 'the builtin `%s` is re-bound in this module or replaced somewhere in the package' % node.id)
+
+    def namedtuple_type(self, name):
+        """Field names of the module-level `name = namedtuple("T", [...])` (bound once, never replaced); else None."""
+        if name in self._nt:
+            return self._nt[name]
+        fields = None
+        st = self.single_binding(name)
+        if isinstance(st, ast.Assign) and len(st.targets) == 1 and isinstance(st.targets[0], ast.Name) \
+                and isinstance(st.value, ast.Call):
+            c = st.value
+            f = c.func
+            is_nt = (isinstance(f, ast.Name) and f.id == 'namedtuple' and self.imported_from('namedtuple', 'collections')) or \
+                (isinstance(f, ast.Attribute) and f.attr == 'namedtuple' and isinstance(f.value, ast.Name)
+                 and f.value.id == 'collections' and self.imported_module('collections'))
+            if is_nt:
+                if len(c.args) != 2 or c.keywords or not (isinstance(c.args[0], ast.Constant) and isinstance(c.args[0].value, str)):
+                    self.fail(st, 'namedtuple %s: only namedtuple("Name", fields) is supported' % name)
+                spec = c.args[1]
+                if isinstance(spec, ast.Constant) and isinstance(spec.value, str):
+                    names = spec.value.replace(',', ' ').split()
+                elif isinstance(spec, (ast.List, ast.Tuple)) and all(
+                        isinstance(e, ast.Constant) and isinstance(e.value, str) for e in spec.elts):
+                    names = [e.value for e in spec.elts]
+                else:
+                    self.fail(st, 'namedtuple %s: the field names are not literal' % name)
+                if not names or len(set(names)) != len(names) or any(
+                        (not n.isidentifier()) or n.startswith('_') for n in names):
+                    self.fail(st, 'namedtuple %s: bad field names' % name)
+                hz = self.pkg.hazards(name, self.rel, st, allow=[n for n in ast.walk(st) if isinstance(n, ast.Constant)])
+                if hz:
+                    self.fail(st, 'namedtuple type %s may be replaced at run time (%s)' % (name, '; '.join(hz[:3])))
+                fields = names
+        self._nt[name] = fields
+        return fields
 
     def helper(self, func):
         """FunctionDef of a private helper the call `func(...)` refers to, or None (then the call stays opaque)."""
@@ -476,7 +592,15 @@ class Sym:
             elts = [self.ev(e, env) for e in node.elts]
             return ast.copy_location(type(node)(elts=elts, ctx=ast.Load()), node)
         if isinstance(node, ast.Attribute):
+            if self.is_math_module(node.value, env):
+                if node.attr not in MATH_NAMES:
+                    self.fail(node, '`math.%s` is not a function the translator knows' % node.attr)
+                return self.math_name(node.attr, node)      # math.sin == what `from math import sin` binds
             v = self.ev(node.value, env)
+            if isinstance(v, NTuple):
+                if node.attr not in v.fields:
+                    self.fail(node, 'attribute `%s` of a namedtuple with fields %s' % (node.attr, v.fields))
+                return v.elts[v.fields.index(node.attr)]
             return ast.copy_location(ast.Attribute(value=v, attr=node.attr, ctx=ast.Load()), node)
         if isinstance(node, ast.Subscript):
             v = self.ev(node.value, env)
@@ -494,6 +618,10 @@ class Sym:
             return self.call(node, env)
         self.fail(node, 'expression `%s` is outside the subset the translator executes' % ast.unparse(node)[:60])
 
+    def is_math_module(self, node, env):
+        return (isinstance(node, ast.Name) and node.id == 'math' and 'math' not in env
+                and 'math' not in env.get('__locals__', ()) and self.imported_module('math'))
+
     def ifexp(self, test, body, orelse, loc):
         # `B if not c else A` == `A if c else B`
         while isinstance(test, ast.UnaryOp) and isinstance(test.op, ast.Not):
@@ -505,27 +633,52 @@ class Sym:
     def call(self, node, env):
         if any(isinstance(a, ast.Starred) for a in node.args) or any(k.arg is None for k in node.keywords):
             self.fail(node, '*args / **kwargs in a call')
-        if isinstance(node.func, ast.Name) and (node.func.id in env or node.func.id in env.get('__locals__', ())):
-            self.fail(node, 'call of a local name')
-        fn = self.helper(node.func)
+        f = node.func
+        receiver = None
+        # -- a local name that holds a function (alias): call what it holds at this point
+        if isinstance(f, ast.Name) and f.id in env:
+            held = env[f.id]
+            root = held
+            while isinstance(root, ast.Attribute):
+                root = root.value
+            if isinstance(held, SymList) or not isinstance(held, (ast.Name, ast.Attribute)) or not isinstance(root, ast.Name) \
+                    or root.id in env or root.id.startswith('__unbound_'):
+                self.fail(node, 'call of the local name `%s`, which does not hold a global function' % f.id)
+            f = held                      # already evaluated: a global name or <global>.<attr>
+            callee_evaluated = True
+        elif isinstance(f, ast.Name) and f.id in env.get('__locals__', ()):
+            self.fail(node, 'call of the local name `%s` before it is assigned' % f.id)
+        else:
+            callee_evaluated = False
+        # -- math.<f>
+        if isinstance(f, ast.Attribute) and not callee_evaluated and self.is_math_module(f.value, env):
+            f = self.ev(f, env)
+            callee_evaluated = True
+        fn = self.helper(f)
+        nt = self.namedtuple_type(f.id) if isinstance(f, ast.Name) and fn is None else None
         args = [self.ev(a, env) for a in node.args]
         kws = [(k.arg, self.ev(k.value, env)) for k in node.keywords]
         if fn is not None:
             return self.inline(fn, args, kws, node)
-        func = node.func
-        receiver = None
-        if isinstance(func, ast.Attribute):
-            recv = self.ev(func.value, env)
-            if isinstance(func.value, ast.Name) and func.value.id in env:
+        if nt is not None:
+            return self.make_record(f.id, nt, args, kws, node)
+        func = f
+        if isinstance(f, ast.Attribute) and not callee_evaluated:
+            recv = self.ev(f.value, env)
+            if isinstance(recv, NTuple):
+                self.fail(node, 'method `%s` of a namedtuple' % f.attr)
+            if isinstance(f.value, ast.Name) and f.value.id in env:
                 # the receiver is an object held by a local name: it stays reachable after the call
-                if func.attr in SELF_MUTATORS:
+                if f.attr in SELF_MUTATORS:
                     receiver = recv
-                elif func.attr not in PURE_METHODS:
+                elif f.attr not in PURE_METHODS:
                     self.fail(node, 'method `%s` called on the object held by `%s`: it may change the object'
-                              % (func.attr, func.value.id))
-            func = ast.copy_location(ast.Attribute(value=recv, attr=func.attr, ctx=ast.Load()), func)
-        elif not isinstance(func, ast.Name):
-            self.fail(node, 'call of `%s`' % ast.unparse(func)[:40])
+                              % (f.attr, f.value.id))
+            func = ast.copy_location(ast.Attribute(value=recv, attr=f.attr, ctx=ast.Load()), f)
+        elif isinstance(f, ast.Name):
+            self.check_global_function(f)
+        elif not isinstance(f, ast.Attribute):
+            self.fail(node, 'call of `%s`' % ast.unparse(f)[:40])
         out = ast.copy_location(ast.Call(func=func, args=args, keywords=[ast.keyword(arg=a, value=v) for a, v in kws]), node)
         if receiver is not None:
             # `x.to_positive()` changes x in place and returns it: every name holding that object now holds the result
@@ -536,29 +689,61 @@ class Sym:
             self.events.append(('call', out, self.cond))
         return out
 
+    def make_record(self, tname, fields, args, kws, at):
+        """`T(a, b)` / `T(a, y=b)` for a module-level namedtuple type T: an immutable record."""
+        if len(args) > len(fields):
+            self.fail(at, 'too many values for namedtuple %s' % tname)
+        vals = dict(zip(fields, args))
+        for k, v in kws:
+            if k not in fields or k in vals:
+                self.fail(at, 'bad keyword %s for namedtuple %s' % (k, tname))
+            vals[k] = v
+        if len(vals) != len(fields):
+            self.fail(at, 'namedtuple %s needs %s' % (tname, fields))
+        rec = NTuple(elts=[vals[f] for f in fields], ctx=ast.Load())
+        rec.fields = list(fields)
+        return ast.copy_location(rec, at)
+
     def inline(self, fn, args, kws, at):
         """Execute the helper `fn` with its parameters bound to the (already evaluated) arguments."""
         if self.depth >= self.MAX_DEPTH:
             self.fail(at, 'helper calls nested too deeply (recursion?)')
         a = fn.args
-        if a.vararg or a.kwarg or a.kwonlyargs or a.posonlyargs:
-            self.fail(fn, 'helper %s: parameter kinds not supported' % fn.name)
-        names = [x.arg for x in a.args]
-        if len(args) > len(names):
-            self.fail(at, 'too many arguments for %s' % fn.name)
-        env = dict(zip(names, args))
+        if a.vararg or a.kwarg:
+            self.fail(fn, 'helper %s: *args / **kwargs parameters are not supported' % fn.name)
+        posonly = [x.arg for x in a.posonlyargs]
+        regular = [x.arg for x in a.args]
+        kwonly = [x.arg for x in a.kwonlyargs]
+        positional = posonly + regular
+        # every default is evaluated once, when the function is defined: only immutable constants are followed
+
+        def immutable(d):
+            if isinstance(d, ast.UnaryOp) and isinstance(d.op, (ast.USub, ast.UAdd)):
+                d = d.operand
+            if isinstance(d, ast.Constant):
+                return True
+            return isinstance(d, ast.Tuple) and all(immutable(e) for e in d.elts)
+        for d in list(a.defaults) + [d for d in a.kw_defaults if d is not None]:
+            if not immutable(d):
+                self.fail(fn, 'helper %s: a default value `%s` is not an immutable constant' % (fn.name, ast.unparse(d)[:30]))
+        if len(args) > len(positional):
+            self.fail(at, 'too many positional arguments for %s' % fn.name)
+        env = dict(zip(positional, args))
         for k, v in kws:
-            if k not in names or k in env:
-                self.fail(at, 'bad keyword %s for %s' % (k, fn.name))
+            if k in posonly:
+                self.fail(at, '%s: positional-only parameter %s passed by keyword' % (fn.name, k))
+            if k not in regular and k not in kwonly:
+                self.fail(at, '%s has no parameter %s' % (fn.name, k))
+            if k in env:
+                self.fail(at, '%s: parameter %s given twice' % (fn.name, k))
             env[k] = v
-        ndef = len(a.defaults)
         for i, d in enumerate(a.defaults):
-            p = names[len(names) - ndef + i]
-            if p not in env:
-                if not isinstance(d, ast.Constant):
-                    self.fail(fn, 'helper %s: default of %s is not a constant' % (fn.name, p))
-                env[p] = d
-        missing = [p for p in names if p not in env]
+            pn = positional[len(positional) - len(a.defaults) + i]
+            env.setdefault(pn, d)
+        for pn, d in zip(kwonly, a.kw_defaults):
+            if d is not None:
+                env.setdefault(pn, d)
+        missing = [pn for pn in positional + kwonly if pn not in env]
         if missing:
             self.fail(at, 'missing arguments %s for %s' % (missing, fn.name))
         env['__locals__'] = self.local_names(fn)
@@ -583,7 +768,13 @@ class Sym:
                 if st.value is None:
                     return ('ret', ast.copy_location(ast.Constant(value=None), st))
                 return ('ret', self.ev(st.value, env))
-            if isinstance(st, ast.Assign):
+            if isinstance(st, ast.AnnAssign):
+                # the annotation is not evaluated for a local name; `x: T` alone declares nothing at run time
+                if not isinstance(st.target, ast.Name):
+                    self.fail(st, 'annotated assignment to something that is not a name')
+                if st.value is not None:
+                    self.assign(ast.copy_location(ast.Assign(targets=[st.target], value=st.value), st), env)
+            elif isinstance(st, ast.Assign):
                 self.assign(st, env)
             elif isinstance(st, ast.AugAssign):
                 self.augassign(st, env)
@@ -767,7 +958,7 @@ class Sym:
                 raise Reject('%s: global/nonlocal statement in a function the translator executes' % fn.name)
             elif isinstance(n, (ast.FunctionDef, ast.Lambda, ast.ClassDef)) and n is not fn:
                 raise Reject('%s: nested function/class in a function the translator executes' % fn.name)
-        return frozenset(out - {a.arg for a in fn.args.args})
+        return frozenset(out - {a.arg for a in fn.args.posonlyargs + fn.args.args + fn.args.kwonlyargs})
 
     def run(self, fn):
         env = {a.arg: ast.copy_location(ast.Name(id=a.arg, ctx=ast.Load()), a) for a in fn.args.args}
@@ -1222,16 +1413,16 @@ def _checked_year(epoch):
 ST_IC = '\n_IC = (2451996.706, 583.921361, 82.7311, 215.513058)\n'
 
 
-def st_module(ch36=ST_CH36, pa=ST_PA, top=''):
-    return ST_HEAD + top + '\n\nclass Venus(object):\n' + ch36 + pa
+def st_module(ch36=ST_CH36, pa=ST_PA, top='', head='', bottom=''):
+    return head + ST_HEAD + top + '\n\nclass Venus(object):\n' + ch36 + pa + '\n' + bottom
 
 
 def st_variants():
     """(name, expectation, {path: text}); 'same' = identical records, 'not' = different records or rejected."""
     V = []
 
-    def add(name, expect, ch36=ST_CH36, pa=ST_PA, top='', other=None):
-        src = {'pymeeus/Venus.py': st_module(ch36, pa, top)}
+    def add(name, expect, ch36=ST_CH36, pa=ST_PA, top='', other=None, head='', bottom=''):
+        src = {'pymeeus/Venus.py': st_module(ch36, pa, top, head, bottom)}
         if other:
             src['pymeeus/Other.py'] = other
         V.append((name, expect, src))
@@ -1361,6 +1552,126 @@ def recalibrate():
         'l, b, r = Venus.geometric_heliocentric_position(Epoch(jde))', 'r = Venus.geometric_heliocentric_position(Epoch(jde))[1]'))
     add('a changed coefficient', 'not', ch36=ST_CH36.replace('0.0913', '0.0931'))
     add('sin and cos swapped', 'not', ch36=ST_CH36.replace('cos(2.0 * m)', 'sin(2.0 * m)'))
+    # ================= second round: modern idioms =================
+    ST_PARGS = '''
+_PeriodicArgs = namedtuple("_PeriodicArgs", ["jde0", "m", "t"])
+
+
+def _periodic_args(y, /, *, a, b, m0, m1) -> _PeriodicArgs:
+    """jde0, mean anomaly (radians), t"""
+    k = round((365.2425 * y + 1721060.0 - a) / b)
+    jde0 = a + k * b
+    m = Angle(m0 + k * m1).to_positive()
+    t = (jde0 - 2451545.0) / 36525.0
+    return _PeriodicArgs(jde0, m.rad(), t)
+'''
+    ST_MID = ST_CONSTS + '''        k = round((365.2425 * y + 1721060.0 - a) / b)
+        jde0 = a + k * b
+        m = m0 + k * m1
+        m = Angle(m).to_positive()
+        m = m.rad()
+        t = (jde0 - 2451545.0) / 36525.0
+'''
+    assert ST_MID in ST_CH36
+    NT_IMPORT = 'from collections import namedtuple\n'
+    call_kw = '        jde0, m, t = _periodic_args(\n            y, a=2451996.706, b=583.921361, m0=82.7311, m1=215.513058)\n'
+    add('helper after the class, positional-only / keyword-only parameters, namedtuple result unpacked', 'same',
+        head=NT_IMPORT, bottom=ST_PARGS + ST_HELPER, ch36=with_helper.replace(ST_MID, call_kw))
+    add('namedtuple result read by field name and by index', 'same', head=NT_IMPORT, bottom=ST_PARGS,
+        ch36=ST_CH36.replace(ST_MID, '        p = _periodic_args(y, b=583.921361, a=2451996.706, m1=215.513058, m0=82.7311)\n'
+                                      '        jde0 = p.jde0\n        m = p[1]\n        t = p.t\n'))
+    add('namedtuple built with keywords, fields given as a string', 'same', head=NT_IMPORT,
+        bottom=ST_PARGS.replace('["jde0", "m", "t"]', '"jde0 m, t"').replace('_PeriodicArgs(jde0, m.rad(), t)',
+                                                                                '_PeriodicArgs(t=t, jde0=jde0, m=m.rad())'),
+        ch36=ST_CH36.replace(ST_MID, call_kw))
+    add('math.sin / math.cos with `import math`', 'same', head='import math\n',
+        ch36=ST_CH36.replace('sin(m)', 'math.sin(m)').replace('cos(2.0 * m)', 'math.cos(2.0 * m)').replace('sin(aa)', 'math.sin(aa)'))
+    add('local aliases of functions', 'same', head='import math\n',
+        ch36=ST_CH36.replace('        aa = 82.74', '        _sin = sin\n        _cos = math.cos\n        aa = 82.74').replace(
+            'sin(m)', '_sin(m)').replace('cos(2.0 * m)', '_cos(2.0 * m)').replace('sin(aa)', '_sin(aa)'),
+        pa=ST_PA.replace('        l, b, r_b = Venus.geometric_heliocentric_position(Epoch(jde_before))',
+                         '        position = Venus.geometric_heliocentric_position\n        l, b, r_b = position(Epoch(jde_before))').replace(
+            'l, b, r = Venus.geometric_heliocentric_position(Epoch(jde))', 'l, b, r = position(Epoch(jde))').replace(
+            'l, b, r_a = Venus.geometric_heliocentric_position(Epoch(jde_after))', 'l, b, r_a = position(Epoch(jde_after))'))
+    add('alias of a helper', 'same', top=ST_HELPER,
+        ch36=ST_CH36.replace(ST_GUARDS, '        check = _checked_year\n        y = check(epoch)\n'))
+    add('annotations, annotated locals, __future__ import', 'same', head='from __future__ import annotations\nfrom typing import Tuple\n',
+        ch36=ST_CH36.replace('def inferior_conjunction(epoch):', 'def inferior_conjunction(epoch: Epoch) -> Epoch:').replace(
+            '        a = 2451996.706\n', '        a: float = 2451996.706\n        k: int\n'),
+        pa=ST_PA.replace('def perihelion_aphelion(epoch, perihelion=True):',
+                         'def perihelion_aphelion(epoch: Epoch, perihelion: bool = True) -> Epoch:'))
+    add('exception message built with str.format / f-string from module constants', 'same',
+        top='\n_YEAR_MIN = -2000\n_YEAR_MAX = 4000\n',
+        ch36=ST_CH36.replace('raise ValueError("Epoch outside the -2000/4000 range")',
+                             'raise ValueError("Epoch outside the {}/{} range".format(_YEAR_MIN, _YEAR_MAX))').replace(
+            'raise TypeError("Invalid input type")', 'raise TypeError(f"Invalid input type {type(epoch).__name__}")'))
+    add('range guard written with never-modified module constants', 'same', bottom='\n_YEAR_MIN = -2000.0\n_YEAR_MAX = 4000.0\n',
+        ch36=ST_CH36.replace('if y < -2000.0 or y > 4000.0:', 'if y < _YEAR_MIN or y > _YEAR_MAX:'))
+    add('helper with an immutable default that is used', 'same', ch36='''
+    @staticmethod
+    def _count(y, a, b, year_length=365.2425, *, origin=1721060.0):
+        return round((year_length * y + origin - a) / b)
+''' + ST_CH36.replace('k = round((365.2425 * y + 1721060.0 - a) / b)', 'k = Venus._count(y, b=b, a=a)'))
+    # ---- adversarial
+    add('keywords a= and b= swapped', 'not', head=NT_IMPORT, bottom=ST_PARGS,
+        ch36=ST_CH36.replace(ST_MID, call_kw.replace('a=2451996.706, b=583.921361', 'b=2451996.706, a=583.921361')))
+    add('namedtuple field read back from the wrong field', 'not', head=NT_IMPORT, bottom=ST_PARGS,
+        ch36=ST_CH36.replace(ST_MID, '        p = _periodic_args(y, a=2451996.706, b=583.921361, m0=82.7311, m1=215.513058)\n'
+                                      '        jde0 = p.jde0\n        m = p.t\n        t = p.m\n'))
+    add('namedtuple built with two values exchanged', 'not', head=NT_IMPORT,
+        bottom=ST_PARGS.replace('_PeriodicArgs(jde0, m.rad(), t)', '_PeriodicArgs(jde0, t, m.rad())'),
+        ch36=ST_CH36.replace(ST_MID, call_kw))
+    add('namedtuple type re-bound elsewhere in the module', 'not', head=NT_IMPORT,
+        bottom=ST_PARGS + '\n_PeriodicArgs = namedtuple("_PeriodicArgs", ["jde0", "t", "m"])\n', ch36=ST_CH36.replace(ST_MID, call_kw))
+    add('namedtuple that is not collections.namedtuple', 'not', head='from pymeeus.base import namedtuple\n', bottom=ST_PARGS,
+        ch36=ST_CH36.replace(ST_MID, call_kw))
+    add('namedtuple method (_replace) used', 'not', head=NT_IMPORT, bottom=ST_PARGS,
+        ch36=ST_CH36.replace(ST_MID, '        p = _periodic_args(y, a=2451996.706, b=583.921361, m0=82.7311, m1=215.513058)\n'
+                                      '        p = p._replace(t=0.0)\n        jde0, m, t = p\n'))
+    add('positional-only parameter passed by keyword', 'not', head=NT_IMPORT, bottom=ST_PARGS,
+        ch36=ST_CH36.replace(ST_MID, call_kw.replace('            y, a=', '            y=y, a=')))
+    add('keyword-only parameter passed positionally', 'not', head=NT_IMPORT, bottom=ST_PARGS,
+        ch36=ST_CH36.replace(ST_MID, '        jde0, m, t = _periodic_args(y, 2451996.706, b=583.921361, m0=82.7311, m1=215.513058)\n'))
+    add('helper with *args', 'not', head=NT_IMPORT, bottom=ST_PARGS.replace('(y, /, *, a, b, m0, m1)', '(y, *rest, a, b, m0, m1)'),
+        ch36=ST_CH36.replace(ST_MID, call_kw))
+    add('helper with a mutable default', 'not', ch36='''
+    @staticmethod
+    def _count(y, a, b, cache=[]):
+        return round((365.2425 * y + 1721060.0 - a) / b)
+''' + ST_CH36.replace('k = round((365.2425 * y + 1721060.0 - a) / b)', 'k = Venus._count(y, a, b)'))
+    add('helper default that changes the result', 'not', ch36='''
+    @staticmethod
+    def _count(y, a, b, year_length=365.25):
+        return round((year_length * y + 1721060.0 - a) / b)
+''' + ST_CH36.replace('k = round((365.2425 * y + 1721060.0 - a) / b)', 'k = Venus._count(y, a, b)'))
+    add('_YEAR_MAX changed', 'not', bottom='\n_YEAR_MIN = -2000.0\n_YEAR_MAX = 3000.0\n',
+        ch36=ST_CH36.replace('if y < -2000.0 or y > 4000.0:', 'if y < _YEAR_MIN or y > _YEAR_MAX:'))
+    add('_YEAR_MAX re-bound from another module', 'not', bottom='\n_YEAR_MIN = -2000.0\n_YEAR_MAX = 4000.0\n',
+        ch36=ST_CH36.replace('if y < -2000.0 or y > 4000.0:', 'if y < _YEAR_MIN or y > _YEAR_MAX:'),
+        other='import pymeeus.Venus as V\nV._YEAR_MAX = 5000.0\n')
+    add('_YEAR_MAX re-bound through globals()', 'not', bottom='\n_YEAR_MIN = -2000.0\n_YEAR_MAX = 4000.0\n\n\ndef widen():\n    globals()["_YEAR_MAX"] = 5000.0\n',
+        ch36=ST_CH36.replace('if y < -2000.0 or y > 4000.0:', 'if y < _YEAR_MIN or y > _YEAR_MAX:'))
+    add('`math` re-bound in the module', 'not', head='import math\nimport cmath\nmath = cmath\n',
+        ch36=ST_CH36.replace('sin(m)', 'math.sin(m)'))
+    add('`math` is another module under that name', 'not', head='import numpy as math\n', ch36=ST_CH36.replace('sin(m)', 'math.sin(m)'))
+    add('`math` replaced from another module', 'not', head='import math\n', ch36=ST_CH36.replace('sin(m)', 'math.sin(m)'),
+        other='import pymeeus.Venus as V\nimport cmath\nV.math = cmath\n')
+    add('`sin` is not math\'s sin', 'not', head='from numpy import sin\n')
+    add('`round` re-bound in the module', 'not', top='\n\ndef round(x):\n    return int(x)\n')
+    add('function alias re-bound between uses', 'not', ch36=ST_CH36.replace(
+        '        aa = 82.74', '        f = sin\n        aa = 82.74').replace('sin(m)', 'f(m)').replace(
+        '                + cos(2.0 * m)', '                + cos(2.0 * m)').replace(ST_CORR.split('\n')[2], ST_CORR.split('\n')[2]).replace(
+        '+ sin(aa) * (0.0 + t * 0.0144))\n', '+ sin(aa) * (0.0 + t * 0.0144))\n        f = cos\n        corr += f(m) * 0.001\n'))
+    add('position-function alias re-bound between uses', 'not', pa=ST_PA.replace(
+        '        l, b, r_b = Venus.geometric_heliocentric_position(Epoch(jde_before))',
+        '        position = Venus.geometric_heliocentric_position\n        l, b, r_b = position(Epoch(jde_before))\n'
+        '        position = Venus.apparent_heliocentric_position').replace(
+        'l, b, r = Venus.geometric_heliocentric_position(Epoch(jde))', 'l, b, r = position(Epoch(jde))'))
+    add('call of a local that holds a value, not a function', 'not', ch36=ST_CH36.replace(
+        '        aa = 82.74', '        f = Angle(0.0)\n        aa = 82.74').replace('sin(m)', 'f(m)'))
+    add('exception class of the range guard changed', 'not', ch36=ST_CH36.replace('raise ValueError(', 'raise KeyError('))
+    add('exception class of the type guard changed (in a helper)', 'not', ch36=with_helper,
+        top=ST_HELPER.replace('raise TypeError(', 'raise ValueError('))
     return V
 
 
